@@ -1,6 +1,9 @@
 """Verify an independently seeded change and file it under /verif/seeded/<id>/.
 
-usage: tools/verify_seed.py <property> <src dir with patch.diff demo.py notes.md> <seed id> [--no-suite]
+usage: tools/verify_seed.py <property> <src dir with patch.diff demo.py notes.md> <seed id> [--no-suite] [--harmless]
+--harmless: the change is claimed to PRESERVE the property (refactoring / correct optimisation / out-of-scope behaviour):
+  the demo must pass with and without it, and every check whose anchored files the patch touches is run and is expected to
+  stay silent; filed under seeded/harmless/<id>/.
 Steps (all in a scratch worktree of /repo HEAD, removed afterwards):
   1. patch applies; 2. demo passes WITHOUT the patch; 3. demo fails WITH it; 4. full test suite passes WITH it;
   5. ./check <property> (quick) against the patched worktree: caught?  -> meta.json
@@ -19,12 +22,16 @@ def sh(cmd, cwd=None, env=None, timeout=1800):
 def main():
     prop, src, sid = sys.argv[1], Path(sys.argv[2]), sys.argv[3]
     no_suite = '--no-suite' in sys.argv
+    harmless = '--harmless' in sys.argv
     wt = Path(f'/tmp/vseed-{sid}')
     sh(f'git -C /repo worktree remove --force {wt}')
     rc, out = sh(f'git -C /repo worktree add --detach {wt} HEAD')
     assert rc == 0, out
     meta = {'id': sid, 'property': prop, 'repo_head': sh('git -C /repo rev-parse --short HEAD')[1].strip()}
     env = dict(os.environ, PYTHONPATH=f'{wt}/src')
+    lean = Path(f'/tmp/vseed-lean-{sid}')              # private copy of the Lean project: regenerated files of a patched
+    sh(f'rm -rf {lean}; cp -a {VERIF}/lean {lean}')    # tree must not leak into checks of /repo running at the same time
+    cenv = dict(os.environ, VERIF_REPO=str(wt), VERIF_EVIDENCE_DIR='/tmp/vseed-evidence', VERIF_LEAN_DIR=str(lean))
     try:
         rc, out = sh(f'git apply --check {src}/patch.diff', cwd=wt)
         meta['applies'] = rc == 0
@@ -42,12 +49,38 @@ def main():
                 rc, out = sh("unshare -n sh -c 'ip link set lo up; /venv/bin/python -m pytest -q -p no:cacheprovider --timeout=900'", cwd=wt, env=env)
                 if 'address already in use' in out:
                     time.sleep(40); continue
+                if rc != 0 and attempt == 0:     # one retry: e2e tests are timing sensitive under load
+                    meta['suite_first_attempt_failed'] = [l for l in out.splitlines() if l.startswith('FAILED')][:5]
+                    continue
                 break
             tail = [l for l in out.splitlines() if ' passed' in l or ' failed' in l or ' error' in l][-1:]
             meta['suite_with_patch'] = tail[0] if tail else out[-200:]
             meta['suite_green'] = rc == 0
+            meta['suite_failed_tests'] = [l for l in out.splitlines() if l.startswith('FAILED')][:5]
+        if harmless:
+            touched = [l[6:].strip() for l in (src / 'patch.diff').read_text().splitlines() if l.startswith('+++ b/')]
+            meta['touched'] = touched
+            props = [prop]
+            for l in (VERIF / 'properties.jsonl').read_text().splitlines():
+                q = json.loads(l)
+                if q['id'] not in props and any(f in touched for f in q['anchors']['files']):
+                    props.append(q['id'])
+            meta['checks'] = {}
+            for q in props:
+                t0 = time.time()
+                rc, out = sh(f'./check {q} --tier quick', cwd=VERIF, env=cenv, timeout=3000)
+                lines = [l for l in out.splitlines() if 'VIOLATION' in l or l.startswith(q + ' ')]
+                entry = {'rc': rc, 'wall_s': round(time.time() - t0, 1), 'output': lines[-3:]}
+                rp = [l.split('replay=')[1].split()[0] for l in lines if 'replay=' in l]
+                if rp and Path(rp[0]).exists():
+                    r = json.loads(Path(rp[0]).read_text())
+                    entry['replay_signature'] = r.get('signature') or r.get('no_longer_checks')
+                    entry['replay_what'] = (r.get('what') or '')[:400]
+                    entry['replay_case'] = json.dumps(r.get('case'))[:600]
+                meta['checks'][q] = entry
+            meta['silent'] = all(e['rc'] == 0 for e in meta['checks'].values())
         t0 = time.time()
-        rc, out = sh(f'./check {prop} --tier quick', cwd=VERIF, env=dict(os.environ, VERIF_REPO=str(wt), VERIF_EVIDENCE_DIR='/tmp/vseed-evidence'), timeout=3000)
+        rc, out = (0, '') if harmless else sh(f'./check {prop} --tier quick', cwd=VERIF, env=cenv, timeout=3000)
         meta['check_rc'] = rc
         meta['check_wall_s'] = round(time.time() - t0, 1)
         lines = [l for l in out.splitlines() if 'VIOLATION' in l or l.startswith(prop)]
@@ -61,17 +94,28 @@ def main():
             meta['replay_what'] = (r.get('what') or '')[:300]
     finally:
         sh(f'git -C /repo worktree remove --force {wt}')
-    dst = VERIF / 'seeded' / sid
+        sh(f'rm -rf {lean}')
+    dst = VERIF / 'seeded' / ('harmless' if harmless else '') / sid
+    if harmless:
+        for k in ('check_rc', 'check_wall_s', 'check_output', 'caught', 'caught_with_failing_input'):
+            meta.pop(k, None)
     dst.mkdir(parents=True, exist_ok=True)
     for f in ('patch.diff', 'demo.py', 'notes.md'):
-        if (src / f).exists():
+        if (src / f).exists() and (src / f).resolve() != (dst / f).resolve():
             shutil.copy(src / f, dst / f)
     notes = (src / 'notes.md').read_text() if (src / 'notes.md').exists() else ''
-    meta['needs_to_manifest'] = notes[:1200]
+    meta['why_harmless' if harmless else 'needs_to_manifest'] = notes[:1200]
     meta['ran'] = ['git apply --check', 'demo.py without/with patch', 'full pytest suite with patch' if not no_suite else 'suite skipped',
                    f'VERIF_REPO=<patched worktree> ./check {prop} --tier quick']
+    if no_suite and (dst / 'meta.json').exists():      # re-verification of the check only: keep the earlier suite result
+        old = json.loads((dst / 'meta.json').read_text())
+        for k in ('suite_with_patch', 'suite_green', 'suite_failed_tests'):
+            if k in old and k not in meta:
+                meta[k] = old[k]
+        meta['first_verdict'] = old.get('first_verdict') or {'caught': old.get('caught'), 'repo_head': old.get('repo_head'),
+                                                             'check_output': old.get('check_output')}
     (dst / 'meta.json').write_text(json.dumps(meta, indent=1))
-    print(json.dumps({k: v for k, v in meta.items() if k not in ('needs_to_manifest', 'demo_with_patch_tail')}, indent=1))
+    print(json.dumps({k: v for k, v in meta.items() if k not in ('needs_to_manifest', 'why_harmless', 'demo_with_patch_tail')}, indent=1))
     return 0
 
 
